@@ -126,11 +126,29 @@ def skipping(ctx, F, q, inner, rng):
     for bb, e, t in displayed(b, R):
         lits = literals(b, R, bb)
         if e[0] == 'const' and isinstance(e[1], str) and any(l[0] == 'true' and is_call(l[1], 'RangeBounds::contains') for l in lits):
-            ell = e[1] in ('⋯', '⋮') or 'ELLIPSIS' in str(e[1])
+            is_ell = e[1] in ('⋯', '⋮') or 'ELLIPSIS' in str(e[1])
+            # written on the FIRST skip: besides the range test the only guard is a flag that is true before the loop and
+            # cleared only after this write
+            extra = [l for l in lits if not (l[0] == 'is' and is_call(l[1], 'Iterator::next')) and not is_call(l[1], 'RangeBounds::contains')
+                     and not (l[1][0] == 'bin' and l[1][1] in ('Lt',) and l[0] == 'true')]
+            flag_ok = False
+            if len(extra) == 1 and extra[0][0] == 'true' and extra[0][1][0] == 'phi' and set(extra[0][1][2]) == {('const', True), ('const', False)}:
+                fl = extra[0][1][1]
+                defs_ = [(dbb, R.def_expr(dbb, didx)) for (dbb, didx) in b.defs().get(fl, [])]
+                inits = [d for d in defs_ if d[1] == ('const', True)]
+                clears = [d for d in defs_ if d[1] == ('const', False)]
+                flag_ok = len(inits) == 1 and inits[0][0] not in cfg.loop_of(h) and cfg.dominates(inits[0][0], h) and clears and \
+                    all(cfg.dominates(bb, d[0]) or _after_in_iteration(cfg, bb, d[0]) for d in clears)
+            ell = is_ell and flag_ok
     if range_ok and counter_ok and not silent and ell:
         ctx.ok('C19.R2', site, 'an item is skipped only when options.%s contains its position, and the first skip writes the ellipsis' % rng, b.span)
     else:
         ctx.bad('C19.R2', site, 'items can be dropped silently (range=%s counter=%s silent-path=%s ellipsis=%s)' % (range_ok, counter_ok, silent, ell), b.span)
+
+
+def _after_in_iteration(cfg, a, b):
+    """block b is reached only through block a"""
+    return cfg.dominates(a, b)
 
 
 def inequality(ctx, F):
